@@ -3518,13 +3518,32 @@ fn g_hexname(rng: &mut Rng, lo: u64, hi: u64, nul: bool) -> String {
     hexs(&b)
 }
 
+/// 16 address bytes (as 32 hex digits): random, or one of the structured forms a
+/// decoder might special-case (IPv4-mapped, IPv4-compatible, loopback, unspecified,
+/// link-local, multicast, NAT64, 6to4).
+fn g_ip6(rng: &mut Rng) -> String {
+    let (a, b) = (rng.next(), rng.next());
+    let (a, b) = match rng.below(12) {
+        0 => (0, 0x0000_ffff_0000_0000 | (b & 0xffff_ffff)),
+        1 => (0, b & 0xffff_ffff),
+        2 => (0, 1),
+        3 => (0, 0),
+        4 => (0xfe80_0000_0000_0000, b),
+        5 => (0xff02_0000_0000_0000 | (a & 0xffff_ffff), b),
+        6 => (0x0064_ff9b_0000_0000, b & 0xffff_ffff),
+        7 => (0x2002_0000_0000_0000 | (a & 0xffff_ffff_ffff), b),
+        _ => (a, b),
+    };
+    format!("{a:016x}{b:016x}")
+}
+
 fn g_addr(rng: &mut Rng, allow_none: bool) -> String {
     let port = *rng.pick(&[0u64, 1, 80, 255, 256, 65535, 0x1234]);
     match rng.below(if allow_none { 9 } else { 8 }) {
         0 => format!("v4:{:08x}:{port}", rng.next() as u32),
         1 => format!("any4:{:08x}:{port}", rng.next() as u32),
-        2 => format!("v6:{:016x}{:016x}:{port}:{}:{}", rng.next(), rng.next(), g_u32(rng), g_u32(rng)),
-        3 => format!("any6:{:016x}{:016x}:{port}:{}:{}", rng.next(), rng.next(), g_u32(rng), g_u32(rng)),
+        2 => format!("v6:{}:{port}:{}:{}", g_ip6(rng), g_u32(rng), g_u32(rng)),
+        3 => format!("any6:{}:{port}:{}:{}", g_ip6(rng), g_u32(rng), g_u32(rng)),
         4 | 5 => {
             let hi = if rng.chance(1, 4) { 107 } else { 20 };
             format!("path:{}", g_hexname(rng, 1, hi, false))
